@@ -33,6 +33,9 @@ CHECKS = {
  "C09": dict(cat="model_checking", ref="6.C09", engine="log-model", tech="TLA+ byte-level model of .ninja_deps (DepsLog.tla: ids, padding, checksums, recovery) model-checked by TLC; TLC-exported tear/damage/recompaction sequences and random histories replayed on the real DepsLog and validated by TLC (DepsLogTrace.tla)",
              text="Design level: TableIsHistory and ReloadAgrees hold in every state of all record/tear/damage sequences over paths of every padding. Code level: after every operation GetDeps of the real class must equal the reference table, files must be cut at the last complete record, reloads must find nothing to cut, recompaction must drop exactly the outputs without deps statement.",
              note="Trusted: TLC; DepsLogRef.tla as the documented format; the harness's truncation/damage of real files. Bounded: 4 paths (lengths 1-4), 2 mtimes, damage tails from a fixed list in the exhaustive part."),
+ "C15": dict(cat="model_checking", ref="6.C15", engine="function-reference", tech="TLA+ encoder of the GCC/Clang depfile dialect and reference decoder (Depfile.tla); TLC checks Decode(Encode(x)) = x for every bounded rule list x layout x dialect inside the injective fragment; every such text replayed on DepfileParser::Parse with the expected reading",
+             text="One TLC state per (rule list, layout, dialect); the round-trip law holds on the reference inside the fragment where the dialect is injective (collisions are computed over the exported families and must lie outside it); each fragment text is an implementation test. The backslash-before-'$' defect of the tree is a listed known finding.",
+             note="Trusted: TLC; Depfile.tla's Encode as what GCC (>= 10 and < 10) and Clang write, Decode as the documented reading. Bounded: names <= 3 characters over an 8-character alphabet, <= 3 dependencies exhaustively, 24-name lists sampled."),
 }
 
 NOT_YET = "check not built yet (work in progress; see DESIGN.md section 9)"
